@@ -1,3 +1,5 @@
+//go:build !single
+
 package main
 
 // one import per property package; each registers its ops in init()
